@@ -87,11 +87,23 @@ class LinkRecorder:
             if exc is None:
                 rec._wev(link, "Admit", size=_b(frame.size_Mbits), ok=bool(ret))
 
+        # "taken by the far end" is also observed independently of what the far end ANSWERS: a switch that has been handed
+        # the frame by its port (Switch.receive_frame entered during this delivery) has taken it, whatever became of it there
+        txstack: List[Dict[str, bool]] = []
+
         def before_tx(link, sender_nic, frame):
             rec._wev(link, "Begin", size=_b(frame.size_Mbits))
+            txstack.append({"switch": False})
+            return True
 
         def after_tx(link, tok, ret, exc, sender_nic, frame):
-            rec._wev(link, "End", recv=bool(ret) if exc is None else False)
+            top = txstack.pop() if txstack else {"switch": False}
+            rec._wev(link, "End", recv=(bool(ret) or top["switch"]) if exc is None else False)
+
+        def before_switch(sw, frame, from_network_interface=None, **kw):
+            if txstack:
+                txstack[-1]["switch"] = True
+            return None
 
         def after_pre(link, tok, ret, exc, timestep):
             rec._wev(link, "PreTick")
@@ -125,6 +137,9 @@ class LinkRecorder:
 
         tracer.wrap(Link, "can_transmit_frame", after=after_can)
         tracer.wrap(Link, "transmit_frame", before=before_tx, after=after_tx)
+        from primaite.simulator.network.hardware.nodes.network.switch import Switch
+
+        tracer.wrap(Switch, "receive_frame", before=before_switch)
         # the start of a tick is taken from the NETWORK's pre-timestep (every link of the network, whether or not the
         # link's own pre_timestep was called): "loads start every tick at zero" is judged on what the link then reports
         from primaite.simulator.network.container import Network
